@@ -291,7 +291,35 @@ fn curved_case(ctx: &mut Ctx) {
             }
         }
         let path = b.build();
-        let queries: Vec<Point> = (0..16).map(|_| point(rng.uniform(-25.0, 25.0) as f32, rng.uniform(-25.0, 25.0) as f32)).collect();
+        // control points and end points of the path: query points level with them exercise the
+        // bounding-range early-outs of the hit test
+        let mut ctrl_pts: Vec<Point> = Vec::new();
+        for e in path.iter() {
+            match e {
+                PathEvent::Begin { at } => ctrl_pts.push(at),
+                PathEvent::Line { to, .. } => ctrl_pts.push(to),
+                PathEvent::Quadratic { ctrl, to, .. } => {
+                    ctrl_pts.push(ctrl);
+                    ctrl_pts.push(to);
+                }
+                PathEvent::Cubic { ctrl1, ctrl2, to, .. } => {
+                    ctrl_pts.push(ctrl1);
+                    ctrl_pts.push(ctrl2);
+                    ctrl_pts.push(to);
+                }
+                _ => {}
+            }
+        }
+        let mut queries: Vec<Point> = (0..12).map(|_| point(rng.uniform(-25.0, 25.0) as f32, rng.uniform(-25.0, 25.0) as f32)).collect();
+        for _ in 0..12 {
+            if !ctrl_pts.is_empty() {
+                let a = *rng.pick(&ctrl_pts);
+                let b2 = *rng.pick(&ctrl_pts);
+                queries.push(point(rng.uniform(-25.0, 25.0) as f32, a.y));
+                queries.push(point((a.x + b2.x) * 0.5, a.y));
+                queries.push(point(a.x, rng.uniform(-25.0, 25.0) as f32));
+            }
+        }
         let mut args = Out::new();
         args.t(name).f(tol);
         let tag = format!("curved {}", name);
@@ -313,6 +341,21 @@ fn curved_case(ctx: &mut Ctx) {
             orc.check((area - ref_area).abs() <= per * tol as f64 * 1.5 + 1e-3 * (1.0 + ref_area.abs()), "area/curved", "generic", || {
                 format!("{} lyon={} reference={}", name, area, ref_area)
             });
+            if name == "curves" {
+                // reported winding direction = sign of the signed area, when the area is clearly
+                // non-zero (compute_winding works on the control polygon)
+                let d = compute_winding(&mut path.iter());
+                let ctrl_area: f64 = {
+                    let n = ctrl_pts.len();
+                    (0..n).map(|i| 0.5 * (ctrl_pts[i].x as f64 * ctrl_pts[(i + 1) % n].y as f64 - ctrl_pts[(i + 1) % n].x as f64 * ctrl_pts[i].y as f64)).sum()
+                };
+                let bb = per * per / 16.0;
+                if ref_area.abs() > 0.05 * bb && ctrl_area.abs() > 0.05 * bb && (ref_area > 0.0) == (ctrl_area > 0.0) {
+                    orc.check(d == Some(if ref_area > 0.0 { Winding::Positive } else { Winding::Negative }), "winding/sign-of-area-curved", "generic", || {
+                        format!("area {} control-polygon area {} reported {:?}", ref_area, ctrl_area, d)
+                    });
+                }
+            }
             if name != "curves" {
                 // the shape helpers honour the requested winding: sign of the area and reported direction
                 orc.check((ref_area > 0.0) == (want == Winding::Positive), "shape/requested-winding-area", "generic", || {
@@ -332,7 +375,7 @@ fn main() {
     for _ in 0..n {
         hit_case(&mut ctx);
     }
-    let n = ctx.n(500, 30000);
+    let n = ctx.n(1500, 60000);
     for _ in 0..n {
         curved_case(&mut ctx);
     }
